@@ -5,6 +5,7 @@ import CyVerif.Model.C18Rewrite
 import CyVerif.Model.C18Percent
 import CyVerif.Model.C18Field
 import CyVerif.Model.C18Join
+import CyVerif.Model.C18Dedup
 /-! C18 — line-protocol entry of the C18 models. -/
 namespace CyVerif.C18
 
@@ -168,6 +169,19 @@ def handle : List String → String
     match parseBool? kf, decText spec with
     | some kf, some spec => if assumedAsciiSpec kf spec then "ok 1" else "ok 0"
     | _, _ => "bad-op"
+  | "rep" :: kc :: sv :: arg :: toks =>
+    -- one argument, pieces `L:<text>` / `F:<conv>` (spec-free placeholders on argument 0)
+    match parseBool? kc, parseSrcVar? sv, parseArg? arg with
+    | some kc, some sv, some arg =>
+      let ps : Option (List Piece) := toks.foldr (fun t acc =>
+        match t.splitOn ":", acc with
+        | ["L", s], some l => (decText s).map (fun s => Piece.lit s :: l)
+        | ["F", c], some l => (parseConv? c).map (fun c => Piece.field 0 c [] :: l)
+        | _, _ => none) (some [])
+      match ps with
+      | some ps => renderOpt (evalPiecesD kc sv ps [arg] [] [])
+      | none => "bad-op"
+    | _, _, _ => "bad-op"
   | ["tokenize", tmpl] =>
     match decText tmpl with
     | some tmpl => "ok " ++ (if (tokenize tmpl).isEmpty then "empty" else "|".intercalate ((tokenize tmpl).map encText))
